@@ -136,8 +136,8 @@ type super struct {
 	crashTags map[string]int
 	tot       response
 
-	programs, skippedBlocked, crashes, crashesUntriaged, abandoned, spawnErrors, spawns atomic.Int64
-	order                                                                               atomic.Int64
+	programs, skippedBlocked, crashes, deathsNotRepeated, crashesUntriaged, abandoned, spawnErrors, spawns atomic.Int64
+	order                                                                                                  atomic.Int64
 }
 
 func (s *super) merge(r response) {
@@ -310,8 +310,14 @@ func (s *super) crashed(wk work, rq request, died string) {
 			s.merge(resp)
 			s.finish(t)
 			if attempt == 0 {
-				// did not die a second time: report at program level
-				s.recordCrash(opNames[wk.p.root.k], wk.p, nil, rq.Order, died, "the worker died while this program's cases were running; a second, traced run of the same cases completed")
+				// Did not die a second time. A Go panic / fatal error message is
+				// evidence of a library crash and is reported at program level;
+				// a silent death (killed from outside, e.g. OOM killer) is not.
+				if strings.Contains(died, "panic:") || strings.Contains(died, "fatal error:") {
+					s.recordCrash(opNames[wk.p.root.k], wk.p, nil, rq.Order, died, "the worker died while this program's cases were running; a second, traced run of the same cases completed")
+				} else {
+					s.deathsNotRepeated.Add(1)
+				}
 			}
 			return
 		}
@@ -407,7 +413,8 @@ func Run(r *rep.Report, tier string) {
 	r.Set("hangs", int(s.tot.Hangs))
 	r.Set("hangs_not_triaged", int(s.tot.Untriaged))
 	r.Set("worker_processes", map[string]any{"started": int(s.spawns.Load()), "died": int(s.crashes.Load()), "deaths_not_triaged": int(s.crashesUntriaged.Load()),
-		"programs_abandoned_after_repeated_death": int(s.abandoned.Load()), "programs_skipped_operator_keeps_killing_workers": int(s.skippedBlocked.Load()),
+		"silent_deaths_not_repeated_by_a_second_run": int(s.deathsNotRepeated.Load()),
+		"programs_abandoned_after_repeated_death":    int(s.abandoned.Load()), "programs_skipped_operator_keeps_killing_workers": int(s.skippedBlocked.Load()),
 		"start_errors": int(s.spawnErrors.Load())})
 	r.Set("bounds", map[string]any{"values": []int{0, 1, 2}, "input_len": b.lenSingle, "operand_len_two_operands": b.lenPair,
 		"operand_len_two_operands_depth3": b.lenPairDeep, "operand_len_three_operands": b.lenTriple, "operators": b.chainDepth,
